@@ -95,3 +95,960 @@ RECIPES = [
     ("C15", "neutral", [], CB, "frc = m[bset] @ accel + b[bset] @ veloc + k[bb] @ displ[bset]",
      "frc = k[bb] @ displ[bset, :] + np.dot(b[bset, :], veloc) + m[bset] @ accel", "terms of the boundary force commuted"),
 ]
+
+
+# ---------------------------------------------------------------------------------------------------------------------------------
+# second hardening pass: whole-body rewrites of the kinds met in the neutral patches N5-N8 (control flow, flags, guard clauses, views,
+# closures, records, aliases) and breaks hidden inside such rewrites.  The old text is the body of the function as it is today.
+_CALCAM = '''    lf = len(freq)
+    m = S[0]
+    b = S[1]
+    k = S[2]
+    bdof = np.atleast_1d(S[3])
+
+    if bdof.ndim == 2:  # bdof is treated as a drm
+        r = bdof.shape[0]
+        T = bdof
+        Frc = np.zeros((r, lf))
+        Acc = np.empty((r, lf, r), dtype=complex)
+
+        if fs is None:
+            use_freqdirect = False
+            try:
+                fs = ode.SolveUnc(m, b, k, pre_eig=True)
+            except la.LinAlgError:
+                use_freqdirect = True
+            else:
+                if hasattr(fs.pc, "eig_success") and not fs.pc.eig_success:
+                    use_freqdirect = True
+            if use_freqdirect:
+                warnings.warn(
+                    "Switching from `SolveUnc` to `FreqDirect` because complex"
+                    " eigensolver failed; see messages above. Solution may be slow.",
+                    RuntimeWarning,
+                )
+                fs = ode.FreqDirect(m, b, k)
+
+        for direc in range(r):
+            Frc[direc, :] = 1.0
+            sol = fs.fsolve(T.T @ Frc, freq)
+            Acc[:, :, direc] = T @ sol.a
+            Frc[direc, :] = 0.0
+        AM = np.empty((r, lf, r), dtype=complex)
+        for j in range(lf):
+            AM[:, j, :] = la.inv(Acc[:, j, :])
+    else:  # bdof treated as a partition vector for CB model
+        r = len(bdof)
+        acce = np.eye(r)
+        # Perform Baseshake
+        # cbtf = craig bampton transfer function; this will genenerate
+        # the corresponding interface force required to meet imposed
+        # acceleration
+        AM = np.empty((r, lf, r), dtype=complex)
+        save = {}
+        for direc in range(r):
+            tf = cb.cbtf(m, b, k, acce[direc, :], freq, bdof, save)
+            AM[:, :, direc] = tf.frc
+    return AM
+'''
+
+_NTFL = '''    # Calculate apparent masses:
+    if isinstance(Source, (list, tuple)):
+        SAM = calcAM(Source, freq)
+    else:
+        SAM = Source
+
+    if isinstance(Load, (list, tuple)):
+        LAM = calcAM(Load, freq)
+    else:
+        LAM = Load
+
+    As = np.atleast_2d(As)
+    if not len(freq) == As.shape[1] == SAM.shape[1] == LAM.shape[1]:
+        raise ValueError(
+            "incompatible sizes: ensure that `Source`, "
+            "`Load`, and `As` all use the same frequency "
+            "vector `freq`"
+        )
+
+    TAM = SAM + LAM
+
+    # Application of Norton-Thevenin equations
+    r, c, _ = SAM.shape
+    R = np.empty((r, c), dtype=complex)
+    A = np.empty((r, c), dtype=complex)
+    F = np.empty((r, c), dtype=complex)
+    for j in range(c):
+        Ms = SAM[:, j, :]
+        Ml = LAM[:, j, :]
+        Mr = la.solve(Ms + Ml, Ms)
+        A[:, j] = Mr @ As[:, j]
+        F[:, j] = Ml @ A[:, j]
+        R[:, j] = np.diag(Mr)
+    return SimpleNamespace(F=F, A=A, R=R, LAM=LAM, SAM=SAM, TAM=TAM, freq=freq)
+'''
+
+_CBTF = '''    freq = np.atleast_1d(freq).ravel()
+    Omega = 2 * math.pi * freq
+    lenf = len(Omega)
+    a = np.atleast_1d(a)
+    bset = np.atleast_1d(bset)
+    if a.ndim == 1 or (a.ndim == 2 and a.shape[1] == 1):
+        a = np.dot(a.reshape(-1, 1), np.ones((1, lenf)))
+    r, c = a.shape
+    if c != lenf:
+        raise ValueError("`a` is not compatibly sized with `freq`")
+    if r != len(bset):
+        raise ValueError("number of rows in `a` not compatible with `bset`")
+    frc = np.zeros((r, lenf), dtype=complex)
+    bset = np.atleast_1d(bset).ravel()
+    lt = m.shape[0]
+    qset = locate.flippv(bset, lt)
+
+    pvnz = Omega != 0.0
+    if qset.size == 0:
+        accel = a.copy()
+        displ = np.zeros(a.shape, dtype=complex)
+        displ[:, pvnz] = -accel[:, pvnz] / Omega[pvnz] ** 2
+        veloc = 1j * (Omega * displ)
+        frc = m @ accel + b @ veloc + k @ displ
+    else:
+        tf = None
+        if isinstance(save, abc.MutableMapping):
+            try:
+                tf = save["tf"]
+            except KeyError:
+                pass
+        if tf is None:
+            qq = np.ix_(qset, qset)
+            tf = ode.SolveUnc(m[qq], b[qq], k[qq], rb=[])
+            if isinstance(save, abc.MutableMapping):
+                save["tf"] = tf
+
+        bb = np.ix_(bset, bset)
+        qb = np.ix_(qset, bset)
+        v = np.zeros(a.shape, dtype=complex)
+        v[:, pvnz] = 1j * a[:, pvnz] / Omega[pvnz]
+        f = b[qb] @ v - m[qb] @ a
+        sol = tf.fsolve(f, freq)
+
+        displ = np.zeros((lt, lenf), dtype=complex)
+        accel = displ.copy()
+        displ[np.ix_(bset, pvnz)] = -a[:, pvnz] / Omega[pvnz] ** 2
+        displ[qset] = sol.d
+        veloc = 1j * (Omega * displ)
+        accel[bset] = a
+        accel[qset] = sol.a
+        frc = m[bset] @ accel + b[bset] @ veloc + k[bb] @ displ[bset]
+    return SimpleNamespace(frc=frc, a=accel, d=displ, v=veloc, freq=freq, f=freq)
+'''
+
+RECIPES += [
+    ("C15", "neutral", [], FRC, _CALCAM,
+     '''    lf = len(freq)
+    m, b, k, bdof = S[0], S[1], S[2], np.atleast_1d(S[3])
+    is_drm = 2 == bdof.ndim
+    if not is_drm:
+        r = len(bdof)
+        AM = np.empty((r, lf, r), dtype=complex)
+        save = {}
+        acce = np.eye(r)
+        direc = 0
+        while direc != r:
+            AM[:, :, direc] = getattr(cb.cbtf(m, b, k, acce[direc], freq, bdof, save), "frc")
+            direc += 1
+        return AM
+    T = bdof
+    r = T.shape[0]
+    if fs is not None:
+        pass
+    else:
+        try:
+            fs = ode.SolveUnc(m, b, k, pre_eig=True)
+            failed = hasattr(fs.pc, "eig_success") and not fs.pc.eig_success
+        except la.LinAlgError:
+            failed = True
+        if failed:
+            warnings.warn(
+                "Switching from `SolveUnc` to `FreqDirect` because complex"
+                " eigensolver failed; see messages above. Solution may be slow.",
+                RuntimeWarning,
+            )
+            fs = ode.FreqDirect(m, b, k)
+    Frc = np.zeros((r, lf))
+    Acc = np.empty((r, lf, r), dtype=complex)
+    for direc, row in enumerate(Frc):
+        row[:] = 1.0
+        Acc[:, :, direc] = T @ fs.fsolve(T.T @ Frc, freq).a
+        row[:] = 0.0
+    AM = np.empty_like(Acc)
+    j = 0
+    while j < lf:
+        AM[:, j, :] = la.inv(Acc[:, j, :])
+        j += 1
+    return AM
+''',
+     'calcAM: boolean flag with mirrored comparison, partition-vector arm as an early return, counted while loops, try/except flag, rows of Frc written through a view, getattr'),
+    ("C15", "neutral", [], FRC, _CALCAM,
+     '''    lf = len(freq)
+    model = dict(zip(("m", "b", "k"), (S[0], S[1], S[2])))
+    bdof = np.atleast_1d(S[3])
+    nb = bdof.shape[0]
+    shape = (nb, lf, nb)
+    AM = np.empty(shape, dtype=complex)
+    if len(bdof.shape) != 2:
+        save = {}
+        for direc, unit in enumerate(np.eye(nb)):
+            AM[..., direc] = cb.cbtf(a=unit, freq=freq, bset=bdof, save=save, **model).frc
+    else:
+        if fs is None:
+            fs = None
+            try:
+                fs = ode.SolveUnc(pre_eig=True, **model)
+            except la.LinAlgError:
+                pass
+            if fs is None or not getattr(fs.pc, "eig_success", True):
+                warnings.warn(
+                    "Switching from `SolveUnc` to `FreqDirect` because complex"
+                    " eigensolver failed; see messages above. Solution may be slow.",
+                    RuntimeWarning,
+                )
+                fs = ode.FreqDirect(**model)
+        Acc = np.empty(shape, dtype=complex)
+        Tt = bdof.T
+        for direc in range(nb):
+            Frc = np.zeros(shape[:2])
+            Frc[direc, ...] = 1.0
+            Acc[..., direc] = np.matmul(bdof, fs.fsolve(np.matmul(Tt, Frc), freq).a)
+        for j in range(shape[1]):
+            AM[:, j] = la.inv(Acc[:, j])
+    return AM
+''',
+     'calcAM: model matrices in dict(zip(...)) passed with **, shared shape tuple, fresh unit-force matrix per DOF, np.matmul, short subscripts'),
+    ("C15", "neutral", [], FRC, _CALCAM,
+     '''    lf = len(freq)
+    m = S[0]
+    b = S[1]
+    k = S[2]
+    bdof = np.atleast_1d(S[3])
+    r = bdof.shape[0] if bdof.ndim == 2 else len(bdof)
+    AM = np.empty((r, lf, r), dtype=complex)
+    if bdof.ndim == 2 and fs is None:
+        use_freqdirect = False
+        try:
+            fs = ode.SolveUnc(m, b, k, pre_eig=True)
+        except la.LinAlgError:
+            use_freqdirect = True
+        else:
+            use_freqdirect = hasattr(fs.pc, "eig_success") and not fs.pc.eig_success
+        if use_freqdirect:
+            warnings.warn(
+                "Switching from `SolveUnc` to `FreqDirect` because complex"
+                " eigensolver failed; see messages above. Solution may be slow.",
+                RuntimeWarning,
+            )
+            fs = ode.FreqDirect(m, b, k)
+    if bdof.ndim == 2:
+        T = bdof
+        Frc = np.zeros((r, lf))
+        Acc = np.empty((r, lf, r), dtype=complex)
+        for direc in range(r):
+            Frc[direc, :] = 1.0
+            sol = fs.fsolve(T.T @ Frc, freq)
+            Acc[:, :, direc] = T @ sol.a
+            Frc[direc, :] = 0.0
+        for j, acc_j in enumerate(np.transpose(Acc, (1, 0, 2))):
+            AM[:, j, :] = la.inv(acc_j)
+    if bdof.ndim != 2:
+        acce = np.eye(r)
+        save = {}
+        for direc in range(r):
+            tf = cb.cbtf(m, b, k, acce[direc, :], freq, bdof, save)
+            AM[:, :, direc] = tf.frc
+    return AM
+''',
+     'calcAM: branch split into separate ifs with compound tests, conditional expression for the size, np.transpose view'),
+    ("C15", "neutral", [], FRC, _NTFL,
+     '''    am = {}
+    for name, model in (("SAM", Source), ("LAM", Load)):
+        if not isinstance(model, (list, tuple)):
+            am[name] = model
+            continue
+        am[name] = calcAM(model, freq)
+    SAM, LAM = am["SAM"], am["LAM"]
+    As = np.atleast_2d(As)
+    nf = len(freq)
+    if nf != As.shape[1] or nf != SAM.shape[1] or nf != LAM.shape[1]:
+        raise ValueError(
+            "incompatible sizes: ensure that `Source`, "
+            "`Load`, and `As` all use the same frequency "
+            "vector `freq`"
+        )
+    out = SimpleNamespace()
+    out.TAM = SAM + LAM
+    r, c = SAM.shape[:2]
+    for name in ("R", "A", "F"):
+        setattr(out, name, np.empty((r, c), dtype=complex))
+    A = out.A
+    for j in range(c):
+        Ms = SAM[:, j, :]
+        Ml = LAM[:, j, :]
+        Mr = la.solve(Ms + Ml, Ms)
+        A[:, j] = Mr @ As[:, j]
+        out.F[:, j] = Ml @ A[:, j]
+        out.R[:, j] = np.diag(Mr)
+    out.LAM, out.SAM, out.freq = LAM, SAM, freq
+    return out
+''',
+     'ntfl: data-driven loop with continue, attributes set on the namespace one by one / setattr, shape[:2]'),
+    ("C15", "neutral", [], FRC, _NTFL,
+     '''    am = {}
+    for name, model in (("SAM", Source), ("LAM", Load)):
+        am[name] = calcAM(model, freq) if isinstance(model, (list, tuple)) else model
+    SAM, LAM = am["SAM"], am["LAM"]
+    As = np.atleast_2d(As)
+    sizes = (As.shape[1], SAM.shape[1], LAM.shape[1])
+    if any(n != len(freq) for n in sizes):
+        raise ValueError(
+            "incompatible sizes: ensure that `Source`, "
+            "`Load`, and `As` all use the same frequency "
+            "vector `freq`"
+        )
+    TAM = SAM + LAM
+    r, c, _ = SAM.shape
+    res = dict(zip("RAF", (np.empty((r, c), dtype=complex) for _ in "RAF")))
+    for j, (Ms, Ml, as_j) in enumerate(zip(np.swapaxes(SAM, 0, 1), np.swapaxes(LAM, 0, 1), As.T)):
+        Mr = la.solve(Ms + Ml, Ms)
+        res["A"][:, j] = a_j = Mr @ as_j
+        res["F"][:, j] = Ml @ a_j
+        res["R"][:, j] = np.diag(Mr)
+    return SimpleNamespace(LAM=LAM, SAM=SAM, TAM=TAM, freq=freq, **res)
+''',
+     "ntfl: any(...) size check, dict(zip('RAF', generator)), zip over swapaxes views and As.T, chained assignment, **res"),
+    ("C15", "neutral", [], FRC, _NTFL,
+     '''    def _am(model):
+        if isinstance(model, (list, tuple)):
+            return calcAM(model, freq)
+        return model
+
+    SAM = _am(Source)
+    LAM = _am(Load)
+    As = np.atleast_2d(As)
+    ok = len(freq) == As.shape[1]
+    ok = ok and As.shape[1] == SAM.shape[1]
+    ok = ok and SAM.shape[1] == LAM.shape[1]
+    if ok:
+        TAM = SAM + LAM
+        r, c, _ = SAM.shape
+        R = np.empty((r, c), dtype=complex)
+        A = np.empty_like(R)
+        F = np.empty_like(R)
+        j = 0
+        while j < c:
+            Ms, Ml = SAM[:, j, :], LAM[:, j, :]
+            Mr = la.solve(Ms + Ml, Ms)
+            A[:, j] = Mr @ As[:, j]
+            F[:, j] = Ml @ A[:, j]
+            R[:, j] = np.diag(Mr)
+            j += 1
+        return SimpleNamespace(F=F, A=A, R=R, LAM=LAM, SAM=SAM, TAM=TAM, freq=freq)
+    raise ValueError(
+        "incompatible sizes: ensure that `Source`, "
+        "`Load`, and `As` all use the same frequency "
+        "vector `freq`"
+    )
+''',
+     'ntfl: closure with early return, size check accumulated in a flag, main path inside the if and the raise after it, empty_like'),
+    ("C15", "neutral", [], CB, _CBTF,
+     '''    freq = np.atleast_1d(freq).ravel()
+    Omega = 2 * math.pi * freq
+    lenf = len(Omega)
+    a = np.atleast_1d(a)
+    bset = np.atleast_1d(bset)
+    if a.ndim == 1 or (a.ndim == 2 and a.shape[1] == 1):
+        a = np.dot(a.reshape(-1, 1), np.ones((1, lenf)))
+    r, c = a.shape
+    if c != lenf:
+        raise ValueError("`a` is not compatibly sized with `freq`")
+    if r != len(bset):
+        raise ValueError("number of rows in `a` not compatible with `bset`")
+    bset = np.atleast_1d(bset).ravel()
+    lt = m.shape[0]
+    qset = locate.flippv(bset, lt)
+    pvnz = Omega != 0.0
+    have_q = len(qset) > 0
+    if not have_q:
+        accel = a.copy()
+        displ = np.zeros(a.shape, dtype=complex)
+        displ[:, pvnz] = -accel[:, pvnz] / Omega[pvnz] ** 2
+        veloc = 1j * (Omega * displ)
+        frc = m @ accel + b @ veloc + k @ displ
+        return SimpleNamespace(frc=frc, a=accel, d=displ, v=veloc, freq=freq, f=freq)
+    cache = save if isinstance(save, abc.MutableMapping) else None
+    tf = None
+    if cache is not None:
+        try:
+            tf = cache["tf"]
+        except KeyError:
+            tf = None
+    if tf is None:
+        qq = np.ix_(qset, qset)
+        tf = ode.SolveUnc(m[qq], b[qq], k[qq], rb=[])
+        if cache is not None:
+            cache["tf"] = tf
+    bb = np.ix_(bset, bset)
+    qb = np.ix_(qset, bset)
+    v = np.zeros(a.shape, dtype=complex)
+    v[:, pvnz] = 1j * a[:, pvnz] / Omega[pvnz]
+    sol = tf.fsolve(b[qb] @ v - m[qb] @ a, freq)
+    resp = {}
+    for key in ("d", "a"):
+        resp[key] = np.zeros((lt, lenf), dtype=complex)
+    displ, accel = resp["d"], resp["a"]
+    displ[np.ix_(bset, pvnz)] = np.negative(a[:, pvnz]) / np.square(Omega[pvnz])
+    for arr, part in ((displ, sol.d), (accel, sol.a)):
+        arr[qset] = part
+    accel[bset] = a
+    veloc = 1j * (Omega * displ)
+    frc = m[bset] @ accel + b[bset] @ veloc + k[bb] @ displ[bset]
+    return SimpleNamespace(frc=frc, a=accel, d=displ, v=veloc, freq=freq, f=freq)
+''',
+     'cbtf: len(qset) flag with early return, cache alias, data-driven stores, np.negative / np.square'),
+    ("C15", "neutral", [], CB, _CBTF,
+     '''    freq = np.atleast_1d(freq).ravel()
+    Omega = 2 * math.pi * freq
+    lenf = len(Omega)
+    a = np.atleast_1d(a)
+    bset = np.atleast_1d(bset)
+    if not (a.ndim != 1 and (a.ndim != 2 or a.shape[1] != 1)):
+        a = np.matmul(a.reshape(-1, 1), np.ones((1, lenf)))
+    r, c = a.shape
+    if c != lenf:
+        raise ValueError("`a` is not compatibly sized with `freq`")
+    if r != len(bset):
+        raise ValueError("number of rows in `a` not compatible with `bset`")
+    frc = np.zeros((r, lenf), dtype=complex)
+    bset = np.atleast_1d(bset).ravel()
+    lt = m.shape[0]
+    qset = locate.flippv(bset, lt)
+
+    pvnz = Omega != 0.0
+    if qset.shape[0] < 1:
+        accel = a.copy()
+        displ = np.zeros(a.shape, dtype=complex)
+        displ[:, pvnz] = -accel[:, pvnz] / Omega[pvnz] ** 2
+        veloc = 1j * (Omega * displ)
+        frc = m @ accel + b @ veloc + k @ displ
+    else:
+        tf = None
+        if isinstance(save, abc.MutableMapping):
+            try:
+                tf = save["tf"]
+            except KeyError:
+                pass
+        if tf is None:
+            qq = np.ix_(qset, qset)
+            tf = ode.SolveUnc(m[qq], b[qq], k[qq], rb=[])
+            if isinstance(save, abc.MutableMapping):
+                save["tf"] = tf
+
+        bb = np.ix_(bset, bset)
+        qb = np.ix_(qset, bset)
+        v = np.zeros(a.shape, dtype=complex)
+        v[:, pvnz] = 1j * a[:, pvnz] / Omega[pvnz]
+        f = b[qb] @ v - m[qb] @ a
+        sol = tf.fsolve(f, freq)
+
+        displ = np.zeros((lt, lenf), dtype=complex)
+        accel = displ.copy()
+        displ[np.ix_(bset, pvnz)] = -a[:, pvnz] / Omega[pvnz] ** 2
+        displ[qset] = sol.d
+        veloc = 1j * (Omega * displ)
+        accel[bset] = a
+        accel[qset] = sol.a
+        frc = m[bset] @ accel + b[bset] @ veloc + k[bb] @ displ[bset]
+    return SimpleNamespace(frc=frc, a=accel, d=displ, v=veloc, freq=freq, f=freq)
+''',
+     'cbtf: emptiness as shape[0] < 1, De Morgan on the expansion test, np.matmul'),
+    ("C15", "neutral", [], FRC, _CALCAM,
+     '''    lf = len(freq)
+    m, b, k = S[:3]
+    bdof = np.atleast_1d(S[3])
+    kind = "drm" if np.ndim(bdof) == 2 else "pv"
+    make_unc, make_direct = ode.SolveUnc, ode.FreqDirect
+    if kind == "drm":
+        r = bdof.shape[0]
+        T = bdof
+        Frc = np.zeros((r, lf))
+        Acc = np.empty((r, lf, r), dtype=complex)
+        if fs is None:
+            use_freqdirect = False
+            try:
+                fs = make_unc(m, b, k, pre_eig=True)
+            except la.LinAlgError:
+                use_freqdirect = True
+            else:
+                if hasattr(fs.pc, "eig_success") and not fs.pc.eig_success:
+                    use_freqdirect = True
+            if use_freqdirect:
+                warnings.warn(
+                    "Switching from `SolveUnc` to `FreqDirect` because complex"
+                    " eigensolver failed; see messages above. Solution may be slow.",
+                    RuntimeWarning,
+                )
+                fs = make_direct(m, b, k)
+        solve = fs.fsolve
+        expand = lambda frc: T.transpose() @ frc
+        for direc in range(0, r, 1):
+            Frc.fill(0.0)
+            Frc[direc, :] = 1.0
+            sol = solve(expand(Frc), freq)
+            Acc[:, :, direc] = T @ sol.a
+        AM = np.empty((r, lf, r), dtype=complex)
+        invert = la.inv
+        for j in np.arange(lf):
+            AM[:, j, :] = invert(a=Acc[:, j, :])
+    elif kind == "pv":
+        r = len(bdof)
+        acce = np.eye(r)
+        AM = np.empty((r, lf, r), dtype=complex)
+        save = {}
+        base_shake = cb.cbtf
+        for direc in range(r):
+            tf = base_shake(m, b, k, acce[direc, :], freq, bdof, save)
+            AM[:, :, direc] = tf.frc
+    return AM
+''',
+     'calcAM: string regime flag, aliases of constructors / bound methods / la.inv, lambda, Frc.fill reset at the start of a pass, S[:3] unpack, np.ndim, np.arange, range(0, r, 1)'),
+    ("C15", "neutral", [], FRC, _NTFL,
+     '''    am_of = lambda x: calcAM(S=x, freq=freq) if isinstance(x, (tuple, list)) else x
+    SAM = am_of(Source)
+    LAM = am_of(Load)
+    As = np.atleast_2d(As)
+    if not len(freq) == As.shape[1] == SAM.shape[1] == LAM.shape[1]:
+        raise ValueError(
+            "incompatible sizes: ensure that `Source`, "
+            "`Load`, and `As` all use the same frequency "
+            "vector `freq`"
+        )
+    TAM = np.add(SAM, LAM)
+    r, c = SAM.shape[0], SAM.shape[1]
+    R = np.empty((r, c), dtype=complex)
+    A = np.empty((r, c), dtype=complex)
+    F = np.empty((r, c), dtype=complex)
+    for j in range(0, c, 1):
+        Ms = SAM[:, j, :]
+        Mr = la.solve(a=Ms + LAM[:, j, :], b=Ms)
+        A[:, j] = Mr @ As[:, j]
+        R[:, j] = np.diag(Mr)
+    for j in range(c):
+        F[:, j] = LAM[:, j, :] @ A[:, j]
+    return SimpleNamespace(F=F, A=A, R=R, LAM=LAM, SAM=SAM, TAM=TAM, freq=freq)
+''',
+     'ntfl: lambda dispatch, calcAM with keywords, tuple order in isinstance, np.add, la.solve keywords, loop split in two'),
+    ("C15", "neutral", [], FRC, _NTFL,
+     '''    # Calculate apparent masses:
+    if isinstance(Source, list) or isinstance(Source, tuple):
+        SAM = calcAM(Source, freq)
+    else:
+        SAM = Source
+
+    if not (isinstance(Load, tuple) or isinstance(Load, list)):
+        LAM = Load
+    else:
+        LAM = calcAM(Load, freq)
+
+    As = np.atleast_2d(As)
+    if not len(freq) == As.shape[1] == SAM.shape[1] == LAM.shape[1]:
+        raise ValueError(
+            "incompatible sizes: ensure that `Source`, "
+            "`Load`, and `As` all use the same frequency "
+            "vector `freq`"
+        )
+
+    TAM = SAM + LAM
+
+    # Application of Norton-Thevenin equations
+    r, c, _ = SAM.shape
+    R = np.empty((r, c), dtype=complex)
+    A = np.empty((r, c), dtype=complex)
+    F = np.empty((r, c), dtype=complex)
+    for j in range(c):
+        Ms = SAM[:, j, :]
+        Ml = LAM[:, j, :]
+        Mr = la.solve(Ms + Ml, Ms)
+        A[:, j] = Mr @ As[:, j]
+        F[:, j] = Ml @ A[:, j]
+        R[:, j] = np.diag(Mr)
+    return SimpleNamespace(F=F, A=A, R=R, LAM=LAM, SAM=SAM, TAM=TAM, freq=freq)
+''',
+     'ntfl: isinstance tests unfolded with or / not'),
+    ("C15", "neutral", [], CB, _CBTF,
+     '''    freq = np.atleast_1d(freq).ravel()
+    Omega = 2 * math.pi * freq
+    lenf = len(Omega)
+    a = np.atleast_1d(a)
+    bset = np.atleast_1d(bset)
+    def _bad(msg):
+        raise ValueError(msg)
+
+    if a.ndim == 1:
+        a = a[:, None] @ np.ones((1, lenf))
+    elif a.ndim == 2 and a.shape[1] == 1:
+        a = np.tile(a, (1, lenf))
+    r, c = a.shape
+    if c != lenf:
+        _bad("`a` is not compatibly sized with `freq`")
+    if r != len(bset):
+        _bad("number of rows in `a` not compatible with `bset`")
+    frc = np.zeros((r, lenf), dtype=complex)
+    bset = np.atleast_1d(bset).ravel()
+    lt = m.shape[0]
+    qset = locate.flippv(bset, lt)
+
+    pvnz = Omega != 0.0
+    if 0 == len(qset):
+        accel = a.copy()
+        displ = np.zeros(a.shape, dtype=complex)
+        displ[:, pvnz] = -accel[:, pvnz] / Omega[pvnz] ** 2
+        veloc = 1j * (Omega * displ)
+        frc = m @ accel + b @ veloc + k @ displ
+    else:
+        tf = None
+        if isinstance(save, abc.MutableMapping):
+            try:
+                tf = save["tf"]
+            except KeyError:
+                pass
+        if tf is None:
+            qq = np.ix_(qset, qset)
+            tf = ode.SolveUnc(m[qq], b[qq], k[qq], rb=[])
+            if isinstance(save, abc.MutableMapping):
+                save["tf"] = tf
+
+        bb = np.ix_(bset, bset)
+        qb = np.ix_(qset, bset)
+        v = np.zeros(a.shape, dtype=complex)
+        v[:, pvnz] = 1j * a[:, pvnz] / Omega[pvnz]
+        f = b[qb] @ v - m[qb] @ a
+        sol = tf.fsolve(f, freq)
+
+        displ = np.zeros((lt, lenf), dtype=complex)
+        accel = displ.copy()
+        displ[np.ix_(bset, pvnz)] = -a[:, pvnz] / Omega[pvnz] ** 2
+        displ[qset] = sol.d
+        veloc = 1j * (Omega * displ)
+        accel[bset] = a
+        accel[qset] = sol.a
+        frc = m[bset] @ accel + b[bset] @ veloc + k[bb] @ displ[bset]
+    return SimpleNamespace(frc=frc, a=accel, d=displ, v=veloc, freq=freq, f=freq)
+''',
+     'cbtf: raising helper for the guards, a[:, None] / np.tile expansion, mirrored len test'),
+    ("C15", "break", ["C15-R2"], FRC, _NTFL,
+     '''    SAM, LAM = (
+        calcAM(model, freq) if isinstance(model, (list, tuple)) else model
+        for model in (Source, Load)
+    )
+    As = np.atleast_2d(As)
+    if not (len(freq) == As.shape[1] and As.shape[1] == SAM.shape[1] and SAM.shape[1] == LAM.shape[1]):
+        raise ValueError("incompatible sizes")
+    out = {"F": None, "A": None, "R": None, "LAM": LAM, "SAM": SAM}
+    out["TAM"] = SAM + LAM
+    out["freq"] = freq
+    (r, c, _) = SAM.shape
+    R, A, F = (np.empty((r, c), dtype=np.complex128) for _ in range(3))
+    for j in range(c):
+        Ms, Ml = SAM[:, j], LAM[:, j, :]
+        Mr = la.solve(Ms + Ml, Ms)
+        acce = A[:, j]  # view of column j
+        acce[:] = np.matmul(Mr, As[j])
+        F[:, j] = np.matmul(Ml, acce)
+        R[:, j] = np.diag(Mr)
+    out.update(F=F, A=A, R=R)
+    return SimpleNamespace(**out)
+''',
+     'N8-style ntfl with the row of As instead of the column'),
+    ("C15", "break", ["C15-R2"], FRC, _NTFL,
+     '''    SAM, LAM = (
+        calcAM(model, freq) if isinstance(model, (list, tuple)) else model
+        for model in (Source, Load)
+    )
+    As = np.atleast_2d(As)
+    if not (len(freq) == As.shape[1] and As.shape[1] == SAM.shape[1] and SAM.shape[1] == LAM.shape[1]):
+        raise ValueError("incompatible sizes")
+    out = {"F": None, "A": None, "R": None, "LAM": LAM, "SAM": SAM}
+    out["TAM"] = SAM + LAM
+    out["freq"] = freq
+    (r, c, _) = SAM.shape
+    R, A, F = (np.empty((r, c), dtype=np.complex128) for _ in range(3))
+    for j in range(c):
+        Ms, Ml = SAM[:, j], LAM[:, j, :]
+        Mr = la.solve(Ms + Ml, Ms)
+        acce = A[:, j].copy()  # view of column j
+        acce[:] = np.matmul(Mr, As[:, j])
+        F[:, j] = np.matmul(Ml, acce)
+        R[:, j] = np.diag(Mr)
+    out.update(F=F, A=A, R=R)
+    return SimpleNamespace(**out)
+''',
+     "N8-style ntfl: the column 'view' is a copy, A is never written"),
+    ("C15", "break", ["C15-R2"], FRC, _NTFL,
+     '''    SAM, LAM = (
+        calcAM(model, freq) if isinstance(model, (list, tuple)) else model
+        for model in (Source, Load)
+    )
+    As = np.atleast_2d(As)
+    if not (len(freq) == As.shape[1] and As.shape[1] == SAM.shape[1] and SAM.shape[1] == LAM.shape[1]):
+        raise ValueError("incompatible sizes")
+    out = {"F": None, "A": None, "R": None, "LAM": LAM, "SAM": SAM}
+    out["TAM"] = SAM + LAM
+    out["freq"] = freq
+    (r, c, _) = SAM.shape
+    R, A, F = (np.empty((r, c), dtype=np.complex128) for _ in range(3))
+    for j in range(c):
+        Ms, Ml = SAM[:, j], LAM[:, j, :]
+        Mr = la.solve(Ms + Ml, Ms)
+        acce = A[:, j]  # view of column j
+        F[:, j] = np.matmul(Ml, acce)
+        acce[:] = np.matmul(Mr, As[:, j])
+        R[:, j] = np.diag(Mr)
+    out.update(F=F, A=A, R=R)
+    return SimpleNamespace(**out)
+''',
+     'N8-style ntfl: F computed from the view before the column is written'),
+    ("C15", "break", ["C15-R2"], FRC, _NTFL,
+     '''    SAM, LAM = (
+        calcAM(model, freq) if isinstance(model, (list, tuple)) else model
+        for model in (Source, Load)
+    )
+    As = np.atleast_2d(As)
+    if not (len(freq) == As.shape[1] and As.shape[1] == SAM.shape[1] and SAM.shape[1] == LAM.shape[1]):
+        raise ValueError("incompatible sizes")
+    out = {"F": None, "A": None, "R": None, "LAM": LAM, "SAM": SAM}
+    out["TAM"] = SAM - LAM
+    out["freq"] = freq
+    (r, c, _) = SAM.shape
+    R, A, F = (np.empty((r, c), dtype=np.complex128) for _ in range(3))
+    for j in range(c):
+        Ms, Ml = SAM[:, j], LAM[:, j, :]
+        Mr = la.solve(Ms + Ml, Ms)
+        acce = A[:, j]  # view of column j
+        acce[:] = np.matmul(Mr, As[:, j])
+        F[:, j] = np.matmul(Ml, acce)
+        R[:, j] = np.diag(Mr)
+    out.update(F=F, A=A, R=R)
+    return SimpleNamespace(**out)
+''',
+     'N8-style ntfl: TAM = SAM - LAM inside the dict'),
+    ("C15", "break", ["C15-R2"], FRC, _NTFL,
+     '''    SAM, LAM = (
+        calcAM(model, freq) if isinstance(model, (list, tuple)) else model
+        for model in (Load, Source)
+    )
+    As = np.atleast_2d(As)
+    if not (len(freq) == As.shape[1] and As.shape[1] == SAM.shape[1] and SAM.shape[1] == LAM.shape[1]):
+        raise ValueError("incompatible sizes")
+    out = {"F": None, "A": None, "R": None, "LAM": LAM, "SAM": SAM}
+    out["TAM"] = SAM + LAM
+    out["freq"] = freq
+    (r, c, _) = SAM.shape
+    R, A, F = (np.empty((r, c), dtype=np.complex128) for _ in range(3))
+    for j in range(c):
+        Ms, Ml = SAM[:, j], LAM[:, j, :]
+        Mr = la.solve(Ms + Ml, Ms)
+        acce = A[:, j]  # view of column j
+        acce[:] = np.matmul(Mr, As[:, j])
+        F[:, j] = np.matmul(Ml, acce)
+        R[:, j] = np.diag(Mr)
+    out.update(F=F, A=A, R=R)
+    return SimpleNamespace(**out)
+''',
+     'N8-style ntfl: generator unpack over (Load, Source)'),
+    ("C15", "break", ["C15-R2"], FRC, _NTFL,
+     '''    SAM, LAM = (
+        calcAM(model, freq) if isinstance(model, (list, tuple)) else model
+        for model in (Source, Load)
+    )
+    As = np.atleast_2d(As)
+    if not (len(freq) == As.shape[1] and As.shape[1] == SAM.shape[1] and SAM.shape[1] == LAM.shape[1]):
+        raise ValueError("incompatible sizes")
+    out = {"F": None, "A": None, "R": None, "LAM": LAM, "SAM": SAM}
+    out["TAM"] = SAM + LAM
+    out["freq"] = freq
+    (r, c, _) = SAM.shape
+    R, A, F = (np.empty((r, c), dtype=np.complex128) for _ in range(3))
+    for j in range(c):
+        Ms, Ml = SAM[:, j], LAM[:, j, :]
+        Mr = la.solve(Ms + Ml, Ms)
+        acce = A[:, j]  # view of column j
+        acce[:] = np.matmul(Mr, As[:, j])
+        F[:, j] = np.matmul(Ml, acce)
+        R[:, j] = np.diag(Mr)
+    out.update(F=A, A=F, R=R)
+    return SimpleNamespace(**out)
+''',
+     'N8-style ntfl: out.update(F=A, A=F)'),
+    ("C15", "break", ["C15-R2"], FRC, _NTFL,
+     '''    if isinstance(Source, (list, tuple)):
+        SAM = calcAM(Source, freq)
+    else:
+        SAM = Source
+    if isinstance(Load, (list, tuple)):
+        LAM = calcAM(Load, freq)
+    else:
+        LAM = Load
+    As = np.atleast_2d(As)
+    if not len(freq) == As.shape[1] == SAM.shape[1] == LAM.shape[1]:
+        raise ValueError("incompatible sizes")
+    TAM = SAM + LAM
+    r, c, _ = SAM.shape
+    R = np.empty((r, c), dtype=complex)
+    A = np.empty((r, c), dtype=complex)
+    F = np.empty((r, c), dtype=complex)
+    for j in range(c):
+        F[:, j] = LAM[:, j, :] @ A[:, j]
+    for j in range(c):
+        Ms = SAM[:, j, :]
+        Mr = la.solve(Ms + LAM[:, j, :], Ms)
+        A[:, j] = Mr @ As[:, j]
+        R[:, j] = np.diag(Mr)
+    return SimpleNamespace(F=F, A=A, R=R, LAM=LAM, SAM=SAM, TAM=TAM, freq=freq)
+''',
+     'ntfl loop split with the force loop before the acceleration loop'),
+    ("C15", "break", ["C15-R1"], FRC, '''        for direc in range(r):
+            Frc[direc, :] = 1.0
+            sol = fs.fsolve(T.T @ Frc, freq)
+            Acc[:, :, direc] = T @ sol.a
+            Frc[direc, :] = 0.0
+''',
+     '''        def unit_force_response(direc):
+            Frc[direc] = 1.0
+            return np.matmul(T, fs.fsolve(np.matmul(T.T, Frc), freq).a)
+
+        for direc in range(r):
+            Acc[..., direc] = unit_force_response(direc)
+''',
+     'closure sets the unit force on a shared matrix that is never reset'),
+    ("C15", "break", ["C15-R1"], FRC, '''    if bdof.ndim == 2:  # bdof is treated as a drm''',
+     '''    kind = "pv" if bdof.ndim == 2 else "drm"
+    if kind == "drm":''',
+     'string regime flag with the two regimes swapped'),
+    ("C15", "break", ["C15-R1"], CB, '''    if qset.size == 0:
+''',
+     '''    if qset.size:
+''',
+     'cbtf: emptiness test inverted (truthiness of qset.size selects the no-interior branch)'),
+    ("C15", "break", ["C15-R2"], FRC, '''    if not len(freq) == As.shape[1] == SAM.shape[1] == LAM.shape[1]:''',
+     '''    if any(n != len(freq) for n in (As.shape[1], SAM.shape[1])):''',
+     'size check as any(...) without the load'),
+    ("C15", "break", ["C15-R2"], FRC, '''    if isinstance(Load, (list, tuple)):
+        LAM = calcAM(Load, freq)
+    else:
+        LAM = Load
+''',
+     '''    def _am(x):
+        if not isinstance(x, (list, tuple)):
+            return calcAM(x, freq)
+        return x
+
+    LAM = _am(Load)
+''',
+     'closure dispatch with the isinstance test inverted'),
+    ("C15", "neutral", [], CB, '''        tf = None
+        if isinstance(save, abc.MutableMapping):
+            try:
+                tf = save["tf"]
+            except KeyError:
+                pass
+        if tf is None:
+            qq = np.ix_(qset, qset)
+            tf = ode.SolveUnc(m[qq], b[qq], k[qq], rb=[])
+            if isinstance(save, abc.MutableMapping):
+                save["tf"] = tf
+''',
+     '''        def _qsolver():
+            cached = isinstance(save, abc.MutableMapping)
+            if cached:
+                try:
+                    tf = save["tf"]
+                except KeyError:
+                    tf = None
+                if tf is not None:
+                    return tf
+            qq = np.ix_(qset, qset)
+            tf = ode.SolveUnc(*[mat[qq] for mat in (m, b, k)], rb=[])
+            if cached:
+                save["tf"] = tf
+            return tf
+
+        tf = _qsolver()
+''',
+     'cbtf: cached solver fetched by a closure with conditional returns, starred generator arguments'),
+    ("C15", "neutral", [], FRC, _CALCAM,
+     '''    lf = len(freq)
+    m, b, k, *_rest = S
+    bdof = np.atleast_1d(S[3])
+    if bdof.ndim == 2:  # bdof is treated as a drm
+        r, T = bdof.shape[0], bdof
+        Acc = np.empty((r, lf, r), dtype=complex)
+        if fs is None:
+            fs = _default_solver(m, b, k)
+        Frc = np.zeros((r, lf))
+        direc = 0
+        while direc <= r - 1:
+            try:
+                Frc[direc, :] = 1.0
+                Acc[:, :, direc] = T @ fs.fsolve(T.T @ Frc, freq).a
+            finally:
+                Frc[direc, :] = 0.0
+            direc = direc + 1
+        AM = np.empty((r, lf, r), dtype=complex)
+        for j in range(lf):
+            AM[:, j, :] = la.inv(Acc[:, j, :])
+        return AM
+    r = len(bdof)
+    acce = np.eye(r)
+    AM = np.empty((r, lf, r), dtype=complex)
+    save = {}
+    for direc in range(r):
+        tf = cb.cbtf(m, b, k, acce[direc, :], freq, bdof, save)
+        AM[:, :, direc] = tf.frc
+    return AM
+
+
+def _default_solver(m, b, k):
+    try:
+        fs = ode.SolveUnc(m, b, k, pre_eig=True)
+    except la.LinAlgError:
+        pass
+    else:
+        if not hasattr(fs.pc, "eig_success") or fs.pc.eig_success:
+            return fs
+    warnings.warn(
+        "Switching from `SolveUnc` to `FreqDirect` because complex"
+        " eigensolver failed; see messages above. Solution may be slow.",
+        RuntimeWarning,
+    )
+    return ode.FreqDirect(m, b, k)
+''',
+     'calcAM: starred unpack, default solver in a module helper with conditional returns, try/finally around the unit force, `while direc <= r - 1`, `direc = direc + 1`'),
+    ("C15", "neutral", [], FRC, '''    if not len(freq) == As.shape[1] == SAM.shape[1] == LAM.shape[1]:''',
+     '''    if len({len(freq), As.shape[1], SAM.shape[1], LAM.shape[1]}) != 1:''',
+     'ntfl: size check as len({...}) != 1'),
+    ("C15", "break", ["C15-R1"], FRC, '''        for direc in range(r):
+            tf = cb.cbtf(m, b, k, acce[direc, :], freq, bdof, save)
+            AM[:, :, direc] = tf.frc
+''',
+     '''        unit = np.zeros(r)
+        for direc in range(r):
+            unit[direc] = 1.0
+            AM[:, :, direc] = cb.cbtf(m, b, k, unit, freq, bdof, save).frc
+''',
+     'unit acceleration vector shared between passes and never reset'),
+    ("C15", "break", ["C15-R2"], FRC, '''    if not len(freq) == As.shape[1] == SAM.shape[1] == LAM.shape[1]:''',
+     '''    if len({len(freq), As.shape[1], SAM.shape[1]}) != 1:''',
+     'size check as len({...}) without the load'),
+    ("C15", "break", ["C15-R2"], FRC, '''    if isinstance(Load, (list, tuple)):''',
+     '''    if isinstance(Load, list):''',
+     'a Load given as a tuple no longer goes through calcAM'),
+]
